@@ -141,17 +141,60 @@ fn c14_encode_int_conn_down() {
     check_encoded(m.into(), 6, 28, &off, Q);
 }
 
-// verif: prop=C14 tier=thorough cap=3000 mem=24 bound="parameter problem quoting a 1300-byte offending packet: truncated to the 1232-byte budget, quoted prefix, checksum" fns="ScmpParameterProblem::encode_unchecked with truncation" stubs="none"
-#[kani::proof]
-#[kani::unwind(640)]
-fn c14_encode_truncated() {
+/// An offending packet of 1300 bytes (zero except one symbolic byte at a symbolic position, which
+/// may lie in the quoted prefix or in the dropped tail): every error kind truncates the quote to
+/// the 1232-byte budget, quotes the prefix, and the checksum verifies over what is sent.
+fn encode_truncated(kind: u8) {
     const BIG: usize = 1300;
     let mut off = [0u8; BIG];
     let p: usize = kani::any();
     kani::assume(p < BIG);
     off[p] = kani::any();
-    let m = ScmpParameterProblem::new(ScmpParameterProblemCode::InvalidCommonHeader, kani::any(), off.to_vec());
-    check_encoded(m.into(), 4, 8, &off, 1232 - 36 - 8);
+    let ia = IsdAsn::from_u64(0x0001_ff00_0000_0110);
+    let (msg, ty, fixed): (ScmpMessage, u8, usize) = match kind {
+        0 => (ScmpDestinationUnreachable::new(ScmpDestinationUnreachableCode::from(kani::any::<u8>()), off.to_vec()).into(), 1, 8),
+        1 => (ScmpPacketTooBig::new(kani::any(), off.to_vec()).into(), 2, 8),
+        2 => (ScmpParameterProblem::new(ScmpParameterProblemCode::InvalidCommonHeader, kani::any(), off.to_vec()).into(), 4, 8),
+        3 => (ScmpExternalInterfaceDown::new(ia, kani::any(), off.to_vec()).into(), 5, 20),
+        _ => (ScmpInternalConnectivityDown::new(ia, kani::any(), kani::any(), off.to_vec()).into(), 6, 28),
+    };
+    kani::cover!(p >= 1232 - 36 - fixed, "symbolic byte in the dropped tail");
+    check_encoded(msg, ty, fixed, &off, 1232 - 36 - fixed);
+}
+
+// verif: prop=C14 tier=thorough cap=3000 mem=24 bound="destination unreachable quoting a 1300-byte offending packet (one symbolic byte anywhere): truncated to the 1232-byte budget, quoted prefix, checksum" fns="ScmpDestinationUnreachable::encode_unchecked with truncation" stubs="none"
+#[kani::proof]
+#[kani::unwind(640)]
+fn c14_truncated_dest_unreachable() {
+    encode_truncated(0)
+}
+
+// verif: prop=C14 tier=thorough cap=3000 mem=24 bound="packet too big quoting a 1300-byte offending packet" fns="ScmpPacketTooBig::encode_unchecked with truncation" stubs="none"
+#[kani::proof]
+#[kani::unwind(640)]
+fn c14_truncated_too_big() {
+    encode_truncated(1)
+}
+
+// verif: prop=C14 tier=thorough cap=3000 mem=24 bound="parameter problem quoting a 1300-byte offending packet" fns="ScmpParameterProblem::encode_unchecked with truncation" stubs="none"
+#[kani::proof]
+#[kani::unwind(640)]
+fn c14_truncated_param_problem() {
+    encode_truncated(2)
+}
+
+// verif: prop=C14 tier=thorough cap=3000 mem=24 bound="external interface down quoting a 1300-byte offending packet" fns="ScmpExternalInterfaceDown::encode_unchecked with truncation" stubs="none"
+#[kani::proof]
+#[kani::unwind(640)]
+fn c14_truncated_ext_if_down() {
+    encode_truncated(3)
+}
+
+// verif: prop=C14 tier=thorough cap=3000 mem=24 bound="internal connectivity down quoting a 1300-byte offending packet" fns="ScmpInternalConnectivityDown::encode_unchecked with truncation" stubs="none"
+#[kani::proof]
+#[kani::unwind(640)]
+fn c14_truncated_int_conn_down() {
+    encode_truncated(4)
 }
 
 /// Echo request / reply: identifier, sequence number and data are what the encoder writes and
